@@ -41,7 +41,7 @@ def _run_inventory(c):
     import layout
     bodies = [b for b in c.fx.bodies if b.kind != 'promoted']
     for s in panics.inventory(c.fx, bodies):
-        reason = T.auto(s) or T.guard_index(s) or T.guard_unwrap(s)
+        reason = T.auto(s) or T.guard_index(s) or T.guard_index_enumerate(s) or T.guard_unwrap(s)
         if s.kind.startswith('alloc:'):
             rng = s.detail.get('size_range')
             reason = 'bounded' if rng is not None and rng[1] * (s.detail.get('elem_size') or 1) <= (32 << 20) else None
